@@ -98,6 +98,15 @@ def args_binding(repo, run, fn):
             if src(a1) == "args" and isinstance(a0, ast.Subscript) and isinstance(a0.slice, ast.Slice) and a0.slice.lower is not None and src(a0.slice.lower) == "2" \
                     and a0.slice.upper is None and a0.slice.step is None and src(a0.value).endswith("[0]") and src(d.key) == src(g.target.elts[0]) and src(d.value) == src(g.target.elts[1]):
                 ok = True
+    # equivalent spelling: dict(zip(argspec[0][2:], args))
+    for c in [c for c in ast.walk(fn) if isinstance(c, ast.Call) and dotted(c.func) == "dict" and len(c.args) == 1 and isinstance(c.args[0], ast.Call) and fname(c.args[0]) == "zip"]:
+        z = c.args[0]
+        if len(z.args) == 2:
+            a0, a1 = z.args
+            node = c
+            if src(a1) == "args" and isinstance(a0, ast.Subscript) and isinstance(a0.slice, ast.Slice) and a0.slice.lower is not None and src(a0.slice.lower) == "2" \
+                    and a0.slice.upper is None and a0.slice.step is None and src(a0.value).endswith("[0]"):
+                ok = True
     run.judged(rid, "constants = {name: value for name, value in zip(argspec[0][2:], args)}", ok=ok)
     if not ok:
         run.report("C18.2", DS, node, "args are not bound to the right-hand side's parameters starting at the third (after t and y), in order")
@@ -146,10 +155,17 @@ def axes(repo, run, fn):
     run.judged(rid, "t_eval branch: stack(y_res, axis=-1), stack(t_res, axis=0)", ok=oky and okt)
     if not (oky and okt):
         run.report("C18.4", DS, (st_y or st_t or [fn])[0], "the t_eval results are not stacked with the time axis last for y and first for t", text="stack axes")
+    from ..sym import inline_locals, Canon
+    cl = Canon(env=inline_locals(fn))
     loops = [st for st in ast.walk(fn) if isinstance(st, ast.For) and src(st.iter) == "t_eval"]
     okl = False
     for lp in loops:
-        texts = [src(s) for s in lp.body]
+        texts = []
+        for s_ in lp.body:
+            if isinstance(s_, ast.Expr) and isinstance(s_.value, ast.Call):
+                texts.append(cl.text(s_.value).replace("ode_system.__getitem__", "ode_system"))
+            else:
+                texts.append(src(s_))
         tgt = src(lp.target)
         i_int = next((i for i, s in enumerate(texts) if ".integrate(" in s and "t=%s" % tgt in s.replace(" ", "")), None)
         i_t = next((i for i, s in enumerate(texts) if s.startswith("t_res.append(") and "[-1].t" in s), None)
